@@ -25,7 +25,7 @@ def build(fns):
     sc = smt.Script("c11_aggregated_xorb_registered")
     g = _cfg(fns, r"FileUploadSession.*process_aggregated_data_as_xorb::\{closure#0\}$|file_upload_session::.*process_aggregated_data_as_xorb::\{closure#0\}$")
     up = g.blocks_calling(r"register_new_xorb_for_upload$")
-    reg = g.blocks_calling(r"SessionShardInterface::add_cas_block$")
+    reg = g.blocks_calling(r"SessionShardInterface::add_cas_block$", summary="may")
     if not up:
         raise LookupError("process_aggregated_data_as_xorb no longer calls register_new_xorb_for_upload")
     # premise: the xorb is non-empty (an empty aggregated xorb is dropped by the uploader without being stored)
@@ -37,7 +37,7 @@ def build(fns):
     sc = smt.Script("c11_midfile_xorb_registered")
     g2 = _cfg(fns, r"deduplication_interface::.*register_new_xorb::\{closure#0\}$")
     up2 = g2.blocks_calling(r"register_new_xorb_for_upload$")
-    reg2 = g2.blocks_calling(r"SessionShardInterface::add_cas_block$")
+    reg2 = g2.blocks_calling(r"SessionShardInterface::add_cas_block$", summary="may")
     if not up2:
         raise LookupError("UploadSessionDataManager::register_new_xorb no longer calls register_new_xorb_for_upload")
     modeb.no_path_query(g2, sc, "mid-file xorb: handed to the uploader only after its chunk list reached the session shard", [g2.entry], up2, reg2)
@@ -51,8 +51,8 @@ def build(fns):
         raise LookupError("shard upload task not found (%d candidates)" % len(cands))
     g3 = modeb.CFG(cands[0])
     us = g3.blocks_calling(r"upload_shard$")
-    ex = g3.blocks_calling(r"export_with_expiration$")
-    rg = g3.blocks_calling(r"register_shards$")
+    ex = g3.blocks_calling(r"export_with_expiration$", summary="may")
+    rg = g3.blocks_calling(r"register_shards$", summary="may")
     resid = g3.blocks_calling(r"FromResidual<.*>>::from_residual$")
     rets = sorted(g3.real_returns)
     modeb.no_path_query(g3, sc, "uploaded shard: Ok is reported only after export to the cache directory", modeb.after(g3, us), rets, ex + resid)
